@@ -22,7 +22,9 @@ import (
 	"github.com/plgd-dev/go-coap/v3/message/codes"
 	"github.com/plgd-dev/go-coap/v3/message/pool"
 	"github.com/plgd-dev/go-coap/v3/mux"
+	udpcoder "github.com/plgd-dev/go-coap/v3/udp/coder"
 
+	"verifharness/ref"
 	"verifharness/vr"
 )
 
@@ -185,18 +187,46 @@ func mkMsg(path string) (*mux.Message, string, bool) {
 	msg := pool.NewMessage(context.Background())
 	msg.SetCode(codes.GET)
 	seen := "/"
+	var segs []string
 	if path != "" && path != "/" {
 		rest := strings.TrimPrefix(path, "/")
 		for _, seg := range strings.Split(rest, "/") {
 			if len(seg) > 255 {
 				return nil, "", false
 			}
-			msg.AddOptionBytes(message.URIPath, []byte(seg))
+			segs = append(segs, seg)
 		}
 		seen = "/" + rest
 	}
+	switch how := len(path) % 3; how {
+	case 0:
+		for _, seg := range segs {
+			msg.AddOptionBytes(message.URIPath, []byte(seg))
+		}
+	default:
+		// the request as it comes off the wire: encoded by the reference encoder, decoded by the library. Every third one
+		// carries elective options with an illegal value length around the path (an ETag of 9 bytes before it, a Size1 of 5
+		// bytes behind it): a receiver skips those - and the path is still the path
+		var opts []ref.Opt
+		if how == 2 {
+			opts = append(opts, ref.Opt{ID: 4, Val: []byte{1, 2, 3, 4, 5, 6, 7, 8, 9}})
+		}
+		for _, seg := range segs {
+			opts = append(opts, ref.Opt{ID: 11, Val: []byte(seg)})
+		}
+		if how == 2 {
+			opts = append(opts, ref.Opt{ID: 60, Val: []byte{1, 2, 3, 4, 5}})
+		}
+		data := ref.EncodeUDP(ref.Msg{Type: 0, Code: 1, MID: 77, Token: []byte{0x17}, Opts: opts})
+		if _, err := msg.UnmarshalWithDecoder(udpcoder.DefaultCoder, data); err != nil {
+			return nil, "", false
+		}
+		wireDecoded.Add(1)
+	}
 	return &mux.Message{Message: msg, RouteParams: new(mux.RouteParams)}, seen, true
 }
+
+var wireDecoded atomic.Int64
 
 func TestRun(t *testing.T) {
 	rec := vr.New("C17", "route sets of 1..8 patterns from a grammar (literal pieces incl. regex metacharacters . + * ? ( ) [ ] | ^ $ \\, {v}, {v:[0-9]+}, {v:[a-z]*}, {v:.*}, {v:a|bc}, {v:(?:x|y)+}, ...; overlapping and equal-length patterns, empty pattern), paths derived from the patterns (instances, truncated, extended, mutated) or PRNG; exhaustive part: all sets of <=2 patterns over a small pattern alphabet x all paths of <=3 segments over 4 symbols; concurrency part: Handle/HandleRemove/DefaultHandle/ServeCOAP from 8 goroutines under -race; registration histories (register, re-register = replace, remove, replace default) with dispatches after every step against a pattern->latest-handler map. Distinct = distinct (pattern set, path) pairs (hashed).")
@@ -414,6 +444,7 @@ func TestRun(t *testing.T) {
 	concurrent(rec, seed)
 	histories(rec, vr.Scale(3000, 100000), seed)
 	throughAdapter(rec, vr.Scale(2000, 60000), seed)
+	rec.Count("requests_decoded_from_the_wire", wireDecoded.Load())
 	rec.Assume("reference matcher: literals verbatim, {v} = one or more non-slash bytes, {v:re} = ^(?:re)$ for that variable alone; ties between equal-length patterns accept either")
 }
 
